@@ -201,6 +201,11 @@ pub enum Op {
     /// a batch of up to `n` distinct keys with 30 000-byte values (close to the maximum batch), so
     /// that log frames cross the 1 MiB block boundary
     BigBatch { n: u8 },
+    /// a memtable flush during which - right after the memtable switch, before the flushed data
+    /// reaches the tree - one more put is issued and acknowledged (what a client does while the
+    /// flush thread works): two write-ahead logs hold unflushed data at the same time.  When there
+    /// is nothing to flush the put simply follows the (idle) flush call.
+    PutDuringFlush { k: u16, sz: u8 },
     /// close the store and open the same directory through the other surface (KeyValueStore <-> LsmTree)
     SwitchSurface,
     Scan { lo: BSel, hi: BSel, prog: Vec<POp> },
@@ -218,6 +223,12 @@ pub struct History {
     /// interpreted without per-op oracles (cheap way to reach deep trees)
     pub warmup: Vec<Op>,
     pub ops: Vec<Op>,
+    /// External ssts may carry OLD timestamps (0..8) for keys that were never written before: the
+    /// "last completed write" to such a key is the same by ingestion order and by timestamp, but
+    /// the sst's timestamp range then contains the ranges of older files (older replay files lack
+    /// the field).
+    #[serde(default)]
+    pub old_ts_ingests: bool,
 }
 
 #[derive(Clone, Copy, Debug)]
@@ -272,6 +283,10 @@ pub fn op_strategy(w: OpWeights, surface: Surface) -> BoxedStrategy<Op> {
         v.push((w.del, any::<u16>().prop_map(|k| Op::Del { k }).boxed()));
         v.push((w.batch, prop::collection::vec((any::<u16>(), prop::option::weighted(0.7, sz2)), 2..12).prop_map(|items| Op::Batch { items }).boxed()));
         v.push((w.flush, Just(Op::Flush).boxed()));
+        if surface == Surface::Kvs {
+            let szf = prop_oneof![3 => 1u8..4, 2 => Just(4u8), 1 => Just(5u8)];
+            v.push(((w.flush / 4).max(1), (any::<u16>(), szf).prop_map(|(k, sz)| Op::PutDuringFlush { k, sz }).boxed()));
+        }
         v.push((w.oversize, any::<bool>().prop_map(|key| Op::Oversize { key }).boxed()));
         v.push((w.big_batch, (8u8..31).prop_map(|n| Op::BigBatch { n }).boxed()));
     } else {
@@ -309,9 +324,10 @@ pub fn history_strategy(profile: Profile, w: OpWeights, tree_surface_weight: u32
                 1u8..41,
                 prop::collection::vec(op_strategy(w, surface), warmup.clone()),
                 prop::collection::vec(op_strategy(w, surface), ops.clone()),
+                prop::bool::weighted(0.35),
             )
         })
-        .prop_map(|(surface, config, family, nkeys, warmup, ops)| History { surface, config, family, nkeys, warmup, ops })
+        .prop_map(|(surface, config, family, nkeys, warmup, ops, old_ts_ingests)| History { surface, config, family, nkeys, warmup, ops, old_ts_ingests })
         .boxed()
 }
 
@@ -355,6 +371,9 @@ pub struct Stats {
     pub surface_switches: u64,
     pub level_order_breaks: u64,
     pub stall_step_bound: u64,
+    pub puts_during_flush: u64,
+    pub ingest_parked_for_ever: u64,
+    pub old_ts_ingested: u64,
     /// stalls seen / relieved in the state of the repaired finding R-P
     pub stalls_over_file_limit: u64,
     pub stalls_over_file_limit_relieved: u64,
@@ -406,6 +425,7 @@ pub struct Harness<'a> {
     pub probes: Probes,
     held: HashMap<u8, Held>,
     ingest_seq: u64,
+    old_ts_ingests: bool,
     /// digests listed by the manifest at the previous observation (C04/C08)
     pub checked: bool,
 }
@@ -443,6 +463,21 @@ thread_local! {
     /// The harness whose flush is in progress on this thread (for the mid-flush yield points).
     static MID_FLUSH: std::cell::Cell<*mut ()> = const { std::cell::Cell::new(std::ptr::null_mut()) };
     static MID_FLUSH_FAIL: std::cell::RefCell<Option<Fail>> = const { std::cell::RefCell::new(None) };
+    /// the put a PutDuringFlush op issues at yield point 5 of its flush
+    static MID_FLUSH_WRITE: std::cell::RefCell<Option<(Vec<u8>, Vec<u8>)>> = const { std::cell::RefCell::new(None) };
+    static MID_FLUSH_WRITE_DONE: std::cell::Cell<bool> = const { std::cell::Cell::new(false) };
+}
+
+/// Called when the put of a PutDuringFlush op has been acknowledged by the store (the crash
+/// enumerator's child records the acknowledgement at that very moment, not when the flush ends).
+pub static INNER_ACK: std::sync::Mutex<Option<Box<dyn FnMut() + Send>>> = std::sync::Mutex::new(None);
+
+fn inner_ack() {
+    if let Ok(mut g) = INNER_ACK.lock() {
+        if let Some(f) = g.as_mut() {
+            f();
+        }
+    }
 }
 
 /// Installed as the store's yield hook while the step driver runs a memtable flush.
@@ -457,6 +492,26 @@ fn mid_flush_hook(site: u32) {
     // SAFETY: set by Harness::flush on this thread for the duration of the memtable_thread call,
     // which is the only thing that runs meanwhile; the probe only reads through the store's API.
     let h: &mut Harness<'static> = unsafe { &mut *(p as *mut Harness<'static>) };
+    if site == 5 {
+        // the memtable was just switched: the new memtable is empty, so one put cannot ask for
+        // another roll-over (which would wait for this very flush)
+        if let Some((k, v)) = MID_FLUSH_WRITE.with(|c| c.borrow_mut().take()) {
+            match h.kvs.as_ref().unwrap().put(&k, &v) {
+                Ok(()) => {
+                    h.model.insert(k, Some(v));
+                    MID_FLUSH_WRITE_DONE.with(|c| c.set(true));
+                    inner_ack();
+                }
+                Err(e) => {
+                    MID_FLUSH_FAIL.with(|c| *c.borrow_mut() = Some(fail("op-error:put", format!("put during a flush failed: {e:?}"))));
+                    return;
+                }
+            }
+        }
+    }
+    if !(h.probes.reads || h.probes.scans) {
+        return;
+    }
     if let Err(f) = h.mid_flush_probe(site) {
         MID_FLUSH_FAIL.with(|c| *c.borrow_mut() = Some(f));
     }
@@ -637,6 +692,7 @@ impl<'a> Harness<'a> {
             root,
             cfg: h.config.clone(),
             surface: h.surface,
+            old_ts_ingests: h.old_ts_ingests,
             kvs: None,
             tree: None,
             universe,
@@ -1074,7 +1130,7 @@ impl<'a> Harness<'a> {
         if !self.relieve_stall()? {
             return Ok(());
         }
-        let probe = self.probes.reads || self.probes.scans;
+        let probe = self.probes.reads || self.probes.scans || MID_FLUSH_WRITE.with(|c| c.borrow().is_some());
         if probe {
             MID_FLUSH.with(|c| c.set(self as *mut Harness<'a> as *mut ()));
             MID_FLUSH_FAIL.with(|c| *c.borrow_mut() = None);
@@ -1262,8 +1318,18 @@ impl<'a> Harness<'a> {
         let mut ts_hi = base + total;
         let mut updates: Vec<(Vec<u8>, Option<Vec<u8>>)> = vec![];
         for (k, vers) in per_key.iter() {
+            // a key nobody ever wrote may arrive with an old timestamp (see History::old_ts_ingests)
+            let old_ts = if self.old_ts_ingests && vers.len() == 1 && !self.model.contains_key(k) {
+                let h = vcore::hash_str(&format!("{}:{}", self.ingest_seq, gens::show(k)));
+                if h % 3 != 0 { Some(h / 3 % 8) } else { None }
+            } else {
+                None
+            };
+            if old_ts.is_some() {
+                self.stats.old_ts_ingested += 1;
+            }
             for (i, v) in vers.iter().enumerate() {
-                let ts = ts_hi;
+                let ts = old_ts.unwrap_or(ts_hi);
                 ts_hi -= 1;
                 let val = v.clone();
                 match &val {
@@ -1277,8 +1343,74 @@ impl<'a> Harness<'a> {
             }
         }
         b.seal().map_err(|e| fail("harness:ingest-build", format!("{e:?}")))?;
-        let r = self.tree.as_ref().unwrap().ingest(&path);
-        r.map_err(|e| fail("op-error:ingest", format!("ingest failed: {e:?}")))?;
+        // The store was just found NOT to want a stall (relieve_stall above), so this ingest must
+        // not be held back.  It runs on a helper thread so that an ingest that parks on the stall
+        // anyway is seen (exact parked counter of the hooks) instead of hanging the driver: the
+        // driver then offers compaction steps; if the selector is idle while the ingest stays parked
+        // the writer waits for ever (C20).
+        let outcome = {
+            use std::sync::atomic::Ordering::SeqCst;
+            let tree: &LsmTree = self.tree.as_ref().unwrap();
+            let parked0 = lsmtk::verif::PARKED.load(SeqCst);
+            let path_ref = &path;
+            std::thread::scope(|sc| {
+                let h = sc.spawn(move || vcore::guard(|| tree.ingest(path_ref)));
+                let t0 = std::time::Instant::now();
+                let mut stuck = false;
+                loop {
+                    if h.is_finished() {
+                        break;
+                    }
+                    if lsmtk::verif::PARKED.load(SeqCst) > parked0 {
+                        // parked on the stall: let compaction run until the selector has nothing left
+                        let mut idle = false;
+                        for _ in 0..lsmtk::NUM_LEVELS * 64 {
+                            if h.is_finished() {
+                                break;
+                            }
+                            if tree.compaction_thread().is_err() || lsmtk::verif::last_idle() {
+                                idle = true;
+                                break;
+                            }
+                        }
+                        let t1 = std::time::Instant::now();
+                        while !h.is_finished() && t1.elapsed() < std::time::Duration::from_millis(if idle { 400 } else { 12_000 }) {
+                            std::thread::sleep(std::time::Duration::from_micros(200));
+                        }
+                        if !h.is_finished() && lsmtk::verif::PARKED.load(SeqCst) > parked0 {
+                            stuck = true;
+                            lsmtk::verif::STOP.store(true, SeqCst);
+                            tree.verif_wake_all();
+                        }
+                        break;
+                    }
+                    if t0.elapsed() > std::time::Duration::from_secs(120) {
+                        break;
+                    }
+                    std::thread::sleep(std::time::Duration::from_micros(50));
+                }
+                let r = h.join();
+                lsmtk::verif::STOP.store(false, SeqCst);
+                (stuck, r)
+            })
+        };
+        match outcome {
+            (true, _) => {
+                self.stats.ingest_parked_for_ever += 1;
+                if self.probes.stall {
+                    return Err(fail(
+                        "stall:ingest-parked-selector-idle",
+                        format!("an ingest is held back (parked on the write stall) although the store reports that level 0 does not call for a stall, and the compaction selector finds nothing to run: the writer waits for ever; tree {}; stall files {} bytes {}; max_compaction_files {} bytes {}", self.shape(), self.cfg.l0_stall_files, self.cfg.l0_stall_bytes, self.cfg.max_compaction_files, self.cfg.max_compaction_bytes),
+                    ));
+                }
+                self.stats.excluded.push("stall-unrelieved-not-asserted-by-this-check".into());
+                let _ = std::fs::remove_file(&path);
+                return Ok(());
+            }
+            (false, Ok(Ok(r))) => r.map_err(|e| fail("op-error:ingest", format!("ingest failed: {e:?}")))?,
+            (false, Ok(Err(f))) => return Err(f),
+            (false, Err(_)) => return Err(fail("panic@ingest-thread", "the ingest panicked on its helper thread".to_string())),
+        }
         let _ = std::fs::remove_file(&path);
         for (k, v) in updates {
             self.model.insert(k, v);
@@ -1293,7 +1425,7 @@ impl<'a> Harness<'a> {
 
     pub fn apply(&mut self, op: &Op) -> Result<(), Fail> {
         match op {
-            Op::Put { .. } | Op::Del { .. } | Op::Batch { .. } | Op::BigBatch { .. } if self.surface == Surface::Tree => {
+            Op::Put { .. } | Op::Del { .. } | Op::Batch { .. } | Op::BigBatch { .. } | Op::PutDuringFlush { .. } if self.surface == Surface::Tree => {
                 // after a surface switch: the same writes, as one externally built sst
                 let writes = write_set(&self.universe, &mut self.tag, op).unwrap();
                 self.ingest_writes(writes.into_iter().map(|(k, v)| (k, vec![v])).collect())?;
@@ -1349,6 +1481,23 @@ impl<'a> Harness<'a> {
                 }
             }
             Op::Flush => self.flush()?,
+            Op::PutDuringFlush { .. } => {
+                let writes = write_set(&self.universe, &mut self.tag, op).unwrap();
+                let (k, v) = writes[0].clone();
+                MID_FLUSH_WRITE.with(|c| *c.borrow_mut() = Some((k.clone(), v.clone().unwrap())));
+                MID_FLUSH_WRITE_DONE.with(|c| c.set(false));
+                let r = self.flush();
+                let pending = MID_FLUSH_WRITE.with(|c| c.borrow_mut().take());
+                r?;
+                if let Some((k, v)) = pending {
+                    // nothing was flushed (or the stall kept the flush from running): a plain put
+                    self.kvs.as_ref().unwrap().put(&k, &v).map_err(|e| fail("op-error:put", format!("put failed: {e:?}")))?;
+                    self.model.insert(k, Some(v));
+                    inner_ack();
+                } else if MID_FLUSH_WRITE_DONE.with(|c| c.get()) {
+                    self.stats.puts_during_flush += 1;
+                }
+            }
             Op::Compact { steps } => {
                 for _ in 0..*steps {
                     if !self.compaction_step()? {
@@ -1736,7 +1885,7 @@ pub fn write_set(universe: &[Vec<u8>], tag: &mut u32, op: &Op) -> Option<Vec<(Ve
         gens::value(*tag, sz)
     };
     match op {
-        Op::Put { k, sz } => Some(vec![(key(*k), Some(fresh(*sz)))]),
+        Op::Put { k, sz } | Op::PutDuringFlush { k, sz } => Some(vec![(key(*k), Some(fresh(*sz)))]),
         Op::Del { k } => Some(vec![(key(*k), None)]),
         Op::Batch { items } => {
             let mut seen = BTreeSet::new();
@@ -1877,6 +2026,7 @@ pub fn op_name(op: &Op) -> &'static str {
         Op::Ingest { .. } => "ingest",
         Op::Oversize { .. } => "oversize",
         Op::BigBatch { .. } => "big-batch",
+        Op::PutDuringFlush { .. } => "put-during-flush",
         Op::SwitchSurface => "switch-surface",
         Op::Scan { .. } => "scan",
         Op::CursorOpen { .. } => "cursor-open",
@@ -1910,6 +2060,12 @@ pub fn label_stats(o: &mut Outcome, s: &Stats) {
     }
     if s.stalls_over_file_limit_relieved > 0 {
         o.label("stall:relieved-in-the-R-P-state");
+    }
+    if s.old_ts_ingested > 0 {
+        o.label("ingest:fresh-key-with-an-old-timestamp(nested-timestamp-ranges)");
+    }
+    if s.puts_during_flush > 0 {
+        o.label("put-acknowledged-during-a-flush(two-logs-with-data)");
     }
     if s.stall_step_bound > 0 {
         o.label("stall-step-bound-exhausted(not-a-verdict)");
